@@ -406,7 +406,7 @@ package route
 //@ assume types.CoreFieldsUnmarshaler.UnmarshalMsgpFirstEvent
 //@   modifies payload
 //@ package route
-//@ contract route.(*batchedEvent).UnmarshalMsg props C22,C04 noframe
+//@ contract route.(*batchedEvent).UnmarshalMsg#time props C22,C04 noframe
 //@   assert only none
 //@   requires b != nil
 //@   ensures[the-time-stored-is-the-time-decoded] result1 == nil && readTimeN() > old(readTimeN()) && b.MsgPackTimestamp != nil ==> *b.MsgPackTimestamp == readTimeLast()
